@@ -139,6 +139,22 @@ func valsFromPattern(enc string, n int, pat uint64, base int64) [][]byte {
 	return vals
 }
 
+// variable-width values whose sizes are small and irregular (0..4 payload bytes): the
+// leaf array must choose between its fixed-size and its positional layout, and sums
+// of sizes coincide with multiples of single sizes often
+func valsSmallStrings(r *rand.Rand, n int) [][]byte {
+	vals := make([][]byte, n)
+	for i := range vals {
+		l := r.Intn(5)
+		b := []byte{0, byte(l)}
+		for j := 0; j < l; j++ {
+			b = append(b, byte('a'+(i+j)%26))
+		}
+		vals[i] = b
+	}
+	return vals
+}
+
 // random run-length layout with runs of 1..maxRun
 func valsRuns(r *rand.Rand, enc string, n, maxRun int, base int64) [][]byte {
 	vals := make([][]byte, n)
